@@ -518,6 +518,230 @@ do_binding(int mask, const struct val_s *iv, int ni)
 	unlink(fout);
 }
 
+/* ---- (d) repeated specifiers: the printed numbers are a function of the duration ----
+ * A format in which a unit specifier occurs more than once (adjacent, three times, with
+ * another specifier in between, with different paddings) must print, at every occurrence,
+ * the number the single occurrence prints in the corresponding duplicate-free format
+ * (both formats set the same durfmt flags, so ddiff computes the same duration).  The
+ * leap-second aware %rS / %rT are included, with operand pairs that cross a leap second.
+ * %S and %rS in one format: the two orders must print the same number per specifier. */
+struct dup_s {
+	char fmt[40];
+	char base[40];
+	int n;		/* numbers in fmt */
+	int nb;		/* numbers in base */
+	int map[4];	/* occurrence k of fmt must equal number map[k] of base */
+	durfmt_t df, dfb;
+};
+static struct dup_s dups[256];
+static int ndup;
+
+static void
+add_dup(const char *fmt, const char *base, int n, int nb, int m0, int m1, int m2)
+{
+	struct dup_s *d = dups + ndup++;
+	snprintf(d->fmt, sizeof(d->fmt), "%s", fmt);
+	snprintf(d->base, sizeof(d->base), "%s", base);
+	d->n = n;
+	d->nb = nb;
+	d->map[0] = m0, d->map[1] = m1, d->map[2] = m2;
+	d->df = determine_durfmt(d->fmt);
+	d->dfb = determine_durfmt(d->base);
+}
+
+static void
+build_dups(void)
+{
+	static const char *const atom[10] = {"%Y", "%m", "%w", "%d", "%H", "%M", "%S", "%rS", "%T", "%rT"};
+	static const char padable[8] = "mwdHMS";
+	char f[40], b[40];
+
+	for (int x = 0; x < 10; x++) {
+		snprintf(f, sizeof(f), "%s %s", atom[x], atom[x]);
+		add_dup(f, atom[x], 2, 1, 0, 0, 0);
+		snprintf(f, sizeof(f), "%s %s %s", atom[x], atom[x], atom[x]);
+		add_dup(f, atom[x], 3, 1, 0, 0, 0);
+		for (int z = 0; z < 8; z++) {
+			/* seconds specifiers among each other are the "order" family below */
+			if (z == x || (x >= 6 && z >= 6)) {
+				continue;
+			}
+			snprintf(f, sizeof(f), "%s %s %s", atom[x], atom[z], atom[x]);
+			snprintf(b, sizeof(b), "%s %s", atom[x], atom[z]);
+			add_dup(f, b, 3, 2, 0, 1, 0);
+		}
+	}
+	for (const char *c = padable; *c; c++) {
+		snprintf(b, sizeof(b), "%%%c", *c);
+		snprintf(f, sizeof(f), "%%0%c %%0%c", *c, *c);
+		add_dup(f, b, 2, 1, 0, 0, 0);
+		snprintf(f, sizeof(f), "%% %c %% %c", *c, *c);
+		add_dup(f, b, 2, 1, 0, 0, 0);
+		snprintf(f, sizeof(f), "%%0%c %% %c %%%c", *c, *c, *c);
+		add_dup(f, b, 3, 1, 0, 0, 0);
+	}
+	add_dup("%0rS %0rS", "%rS", 2, 1, 0, 0, 0);
+	add_dup("% rS %rS", "%rS", 2, 1, 0, 0, 0);
+	/* %S and %rS together: order must not matter */
+	add_dup("%rS %S", "%S %rS", 2, 2, 1, 0, 0);
+	add_dup("%rT %T", "%T %rT", 2, 2, 1, 0, 0);
+	add_dup("%rS %M %S", "%S %M %rS", 3, 3, 2, 1, 0);
+	add_dup("%S %rS %S", "%S %rS", 3, 2, 0, 1, 0);
+	add_dup("%rS %S %rS", "%rS %S", 3, 2, 0, 1, 0);
+}
+
+/* numbers of an output: leading '-', digit runs; every other byte ignored */
+static int
+dup_numbers(const char *s, long long v[], int maxv, int *lead)
+{
+	int n = 0;
+	*lead = s[0] == '-';
+	for (; *s; ) {
+		if (*s >= '0' && *s <= '9') {
+			long long x = 0;
+			while (*s >= '0' && *s <= '9') {
+				x = x * 10 + (*s++ - '0');
+			}
+			if (n < maxv) {
+				v[n] = x;
+			}
+			n++;
+		} else {
+			s++;
+		}
+	}
+	return n;
+}
+
+static struct ex_viol_s *dslot[256][2];
+
+static int
+do_dup(int fi, int ia, int ib, const struct val_s *A, const struct val_s *B)
+{
+	const struct dup_s *d = dups + fi;
+	char t[128], tb[128], key[128], cas[64], cmd[256];
+	long long v[8], vb[8];
+	int l, lb, n, nb, bad = 0;
+	long long delta = ((long long)B->rd - A->rd) * 86400LL + (B->sec - A->sec);
+	double ord = (double)(delta < 0 ? -delta : delta) / 86400.0;
+	int neg = delta < 0;
+	EX_CTR(c_eval, "evaluations");
+	EX_CTR(c_trans, "transitions");
+	EX_CTR(c_dup, "repeated_specifier_cases");
+
+	ddiff_pipe(t, sizeof(t), d->fmt, d->df, A->v, B->v);
+	ddiff_pipe(tb, sizeof(tb), d->base, d->dfb, A->v, B->v);
+	*c_eval += 2;
+	++*c_trans;
+	++*c_dup;
+	ex_outcome(ex_hash_mix(ex_hash(t, strlen(t)), (uint64_t)(7000 + fi)));
+	n = dup_numbers(t, v, 8, &l);
+	nb = dup_numbers(tb, vb, 8, &lb);
+	if (n != d->n || nb != d->nb || l != lb) {
+		bad = 1;
+	} else {
+		for (int k = 0; k < d->n; k++) {
+			bad |= v[k] != vb[d->map[k]];
+		}
+	}
+	if (!bad) {
+		if (replay_mode) {
+			printf("  ddiff %s %s -f '%s' printed '%s'; -f '%s' printed '%s' (agree)\n", A->text, B->text, d->fmt, t, d->base, tb);
+		}
+		return 0;
+	}
+	if (viol_fast(&dslot[fi][neg], ord) && !replay_mode) {
+		return 1;
+	}
+	snprintf(key, sizeof(key), "dup fmt=%s opnd=dt sign=%s", d->fmt, neg ? "-" : "+");
+	snprintf(cas, sizeof(cas), "dup %d %d %d", fi, ia, ib);
+	snprintf(cmd, sizeof(cmd), "ddiff %s %s -f '%s'", A->text, B->text, d->fmt);
+	ex_viol(key, ord, cas, cmd, "ddiff %s %s -f '%s' printed '%s', but -f '%s' prints '%s': every occurrence of a specifier must print the number it prints alone",
+		A->text, B->text, d->fmt, t, d->base, tb);
+	for (int i = 0; i < ex.nviol; i++) {
+		if (!strcmp(ex.viol[i].key, key)) {
+			dslot[fi][neg] = ex.viol + i;
+			break;
+		}
+	}
+	if (replay_mode) {
+		printf("  ddiff %s %s -f '%s' printed '%s', but -f '%s' prints '%s'\n", A->text, B->text, d->fmt, t, d->base, tb);
+	}
+	return 1;
+}
+
+/* operands of part (d): the boundary date-times plus instants on both sides of leap seconds */
+static const int leap_inst[][4] = {
+	{1972, 6, 30, 86399}, {1972, 7, 1, 0}, {1998, 12, 31, 86390}, {1999, 1, 1, 10}, {2008, 12, 31, 86399}, {2009, 1, 1, 0},
+	{2012, 6, 30, 86390}, {2012, 6, 30, 86399}, {2012, 7, 1, 0}, {2012, 7, 1, 10}, {2016, 12, 31, 86390}, {2017, 1, 1, 10},
+};
+#define NLEAPI	((int)(sizeof(leap_inst) / sizeof(*leap_inst)))
+
+static struct val_s*
+dup_operands(const int *rd, int ni, int *n)
+{
+	struct val_s *dv = calloc((size_t)(ni + NLEAPI), sizeof(*dv));
+	for (int k = 0; k < ni; k++) {
+		prep(dv + k, CAL_YMD, rd[k / 7], T7[k % 7]);
+	}
+	for (int k = 0; k < NLEAPI; k++) {
+		prep(dv + ni + k, CAL_YMD, rc_rd(leap_inst[k][0], leap_inst[k][1], leap_inst[k][2]), leap_inst[k][3]);
+	}
+	*n = ni + NLEAPI;
+	return dv;
+}
+
+/* binding for part (d): the ddiff binary, one process per format, reference = 2012-06-30T23:59:50 */
+static void
+do_dup_binding(int fi, const struct val_s *dv, int n, int ni)
+{
+	const char *rundir = getenv("VERIF_RUNDIR");
+	char fin[512], fout[512], cmd[2048], key[128], line[256], cas[64];
+	const struct val_s *A = dv + ni + 6;
+	FILE *f;
+	int k;
+	EX_CTR(c_bind, "cli_binding_replays");
+
+	if (rundir == NULL || ex.tree == NULL) {
+		return;
+	}
+	snprintf(fin, sizeof(fin), "%s/c06d.%d.in", rundir, fi);
+	snprintf(fout, sizeof(fout), "%s/c06d.%d.out", rundir, fi);
+	if ((f = fopen(fin, "w")) == NULL) {
+		return;
+	}
+	for (int i = 0; i < n; i++) {
+		fprintf(f, "%s\n", dv[i].text);
+	}
+	fclose(f);
+	snprintf(cmd, sizeof(cmd), "'%s/src/ddiff' '%s' -f '%s' < '%s' > '%s' 2>&1", ex.tree, A->text, dups[fi].fmt, fin, fout);
+	if (system(cmd)) {
+		;
+	}
+	snprintf(key, sizeof(key), "binding ddiff fmt=%s", dups[fi].fmt);
+	if ((f = fopen(fout, "r")) == NULL) {
+		ex_viol(key, 0, "", cmd, "no output from the binary");
+		return;
+	}
+	for (k = 0; k < n && fgets(line, sizeof(line), f); k++) {
+		char t[128];
+		line[strcspn(line, "\n")] = '\0';
+		ddiff_pipe(t, sizeof(t), dups[fi].fmt, dups[fi].df, A->v, dv[k].v);
+		++*c_bind;
+		if (strcmp(t, line)) {
+			snprintf(cas, sizeof(cas), "dup %d %d %d", fi, ni + 6, k);
+			ex_viol(key, k, cas, cmd, "ddiff %s %s -f '%s': the binary printed '%s', the included pipeline '%s'",
+				A->text, dv[k].text, dups[fi].fmt, line, t);
+		}
+	}
+	fclose(f);
+	if (k != n) {
+		ex_viol(key, k, "", cmd, "the binary printed %d lines for %d input lines", k, n);
+	}
+	unlink(fin);
+	unlink(fout);
+}
+
 int
 main(int argc, char *argv[])
 {
@@ -551,11 +775,35 @@ main(int argc, char *argv[])
 	}
 	nd = bdays(rd);
 	ni = nd * 7;
+	build_dups();
 
 	if (ex.cas) {
 		int mask, dt, ra, sa, rb, sb, bad;
 		struct val_s A, B, Aw, Bw;
 		replay_mode = 1;
+		if (!strncmp(ex.cas, "dup ", 4)) {
+			int fi, ia, ib, n;
+			struct val_s *dv = dup_operands(rd, ni, &n);
+			if (sscanf(ex.cas + 4, "%d %d %d", &fi, &ia, &ib) != 3 || fi < 0 || fi >= ndup || ia < 0 || ib < 0 || ia >= n || ib >= n) {
+				return ex_replay_result(1, "bad case '%s'", ex.cas);
+			}
+			bad = do_dup(fi, ia, ib, dv + ia, dv + ib);
+			if (ex.tree) {
+				char cmd[512], line[256] = "", t[128];
+				FILE *pp;
+				ddiff_pipe(t, sizeof(t), dups[fi].fmt, dups[fi].df, dv[ia].v, dv[ib].v);
+				snprintf(cmd, sizeof(cmd), "'%s/src/ddiff' '%s' '%s' -f '%s' 2>&1", ex.tree, dv[ia].text, dv[ib].text, dups[fi].fmt);
+				if ((pp = popen(cmd, "r"))) {
+					if (fgets(line, sizeof(line), pp)) {
+						line[strcspn(line, "\n")] = '\0';
+					}
+					pclose(pp);
+				}
+				printf("  binary '%s', included pipeline '%s'\n", line, t);
+				bad |= strcmp(line, t) != 0;
+			}
+			return ex_replay_result(bad != 0, "fmt='%s' %s %s", dups[fi].fmt, dv[ia].text, dv[ib].text);
+		}
 		if (sscanf(ex.cas, "pair %d %d %d %d %d %d", &mask, &dt, &ra, &sa, &rb, &sb) != 6 || mask < 1 || mask >= NMASK ||
 		    ra < 0 || rb < 0 || ra >= RC_NDAYS || rb >= RC_NDAYS) {
 			if (sscanf(ex.cas, "bind %d %d", &mask, &dt) == 2 && mask >= 1 && mask < NMASK && dt >= 0 && dt < ni) {
@@ -595,10 +843,16 @@ main(int argc, char *argv[])
 		"<= 52); %d subsets the documentation declares inexpressible (month/year with a time unit but no %%d) are judged for sign and parseable output only; "
 		"sign: exactly one '-', in front, iff the second operand is earlier (not judged on all-zero output); for date-time pairs the ascending and a "
 		"rotated order and the %%0 and '%% ' paddings must print the same numbers. non-trivial = the time-of-day difference (for dates: the day-of-month difference) "
-		"runs against the day difference (borrow)", nfix, ncal, ninex);
+		"runs against the day difference (borrow); repeated specifiers: every occurrence of a specifier prints the number the single occurrence prints "
+		"in the duplicate-free format (same durfmt flags, hence the same duration), same sign; %%S and %%rS in one format print the same numbers in either order",
+		nfix, ncal, ninex);
 	ex_meta("bound", "(a) %d boundary days x 7 times of day = %d date-times, all ordered pairs x 127 subsets x (1 + up to 8 order/padding variants); "
 		"(b) dates: every day of %s x partner at distance -%d..%d x 127 subsets; operands in y-m-d; "
-		"(c) binding: ddiff binary, one process per subset, %d date-times on stdin", nd, ni, ex.thorough ? "1997-2004 and 1897-1904" : "1997-2004", K, K, ni);
+		"(c) binding: ddiff binary, one process per subset, %d date-times on stdin; "
+		"(d) repeated specifiers: %d date-times (the same plus %d instants on both sides of the leap seconds of 1972, 1998, 2008, 2012, 2016), all ordered "
+		"pairs x %d formats in which one of %%Y %%m %%w %%d %%H %%M %%S %%rS %%T %%rT occurs two or three times (adjacent, with another specifier in between, "
+		"with different paddings, %%S/%%rS in both orders), each against its duplicate-free format; binding: one ddiff process per such format",
+		nd, ni, ex.thorough ? "1997-2004 and 1897-1904" : "1997-2004", K, K, ni, ni + NLEAPI, NLEAPI, ndup);
 	ex_meta("binding", "ddiff REF -f SUBSET < date-times, byte-compared with the included pipeline");
 
 	/* (a) date-times */
@@ -664,6 +918,38 @@ main(int argc, char *argv[])
 			}
 		}
 		do_binding(m, iv, ni);
+	}
+	/* (d) repeated specifiers */
+	{
+		int n = 0;
+		struct val_s *dv = NULL;
+		for (int i = 0; i < ni + NLEAPI && !ex_expired(); i++, slice++) {
+			if (!ex_mine((uint64_t)slice)) {
+				continue;
+			}
+			if (dv == NULL) {
+				dv = dup_operands(rd, ni, &n);
+			}
+			++*c_states;
+			for (int j = 0; j < n; j++) {
+				for (int fi = 0; fi < ndup; fi++) {
+					do_dup(fi, i, j, dv + i, dv + j);
+				}
+			}
+			++*c_traces;
+			if (ex_want_sample()) {
+				ex_sample("date-time %s against each of %d date-times x %d formats with a repeated specifier", dv[i].text, n, ndup);
+			}
+		}
+		for (int fi = 0; fi < ndup && !ex_expired(); fi++, slice++) {
+			if (!ex_mine((uint64_t)slice)) {
+				continue;
+			}
+			if (dv == NULL) {
+				dv = dup_operands(rd, ni, &n);
+			}
+			do_dup_binding(fi, dv, n, ni);
+		}
 	}
 	return ex_finish();
 }
